@@ -367,6 +367,10 @@ def table():
 
 def gen_indexed(run, src, tier):
     T = table()
+    from checks import registry
+
+    if registry.META["C20"]["TIERS"][tier] != len(T):  # the enumeration must cover the whole table
+        raise RuntimeError(f"C20 table has {len(T)} entries but the registry enumerates {registry.META['C20']['TIERS'][tier]}")
     i = run % len(T)  # both tiers enumerate the table (it is small enough); VERIF_SEED does not matter here
     return {"index": i, "id": T[i]["id"]}
 
